@@ -161,7 +161,7 @@ class State:
         return rid, "id"
 
 
-def gen_call(rng, st: State, all_taken):
+def gen_call(rng, st: State, all_taken, recent=()):
     kinds = ["generate"] * 5 + ["revision"] * 2 + (["merge"] * 2 if len(st.heads) >= 2 else [])
     kind = rng.choice(kinds)
     msg, mclass = gen_message(rng)
@@ -176,6 +176,17 @@ def gen_call(rng, st: State, all_taken):
         # an id that is already a key of the map (a revision id or a branch label): refused before the write
         call["rev_id"] = rng.choice(st.ids + sorted(st.labels))
         call["ik"] = "repeated"
+    elif x < 0.09 and any(len((m_ or "").split()) >= 2 for _, m_ in recent):
+        # another revision whose id + "_" + slug is the file name of an earlier one (a_b + c / a + b c): refused, nothing replaced
+        rid0, m0 = rng.choice([(i_, m_) for i_, m_ in recent if len((m_ or "").split()) >= 2])
+        w = m0.split()
+        call["rev_id"] = rid0 + "_" + w[0].lower()
+        call["message"] = " ".join(w[1:])
+        call["mclass"] = "collides"
+        call["ik"] = "file-name-of-another"
+        if call["rev_id"] in all_taken:
+            call["rev_id"] = gen_rev_id(rng, all_taken)
+            call["ik"] = "given"
     elif kind == "generate" or rng.random() < 0.6:
         call["rev_id"] = gen_rev_id(rng, all_taken)
     else:
@@ -323,13 +334,15 @@ def gen_date(rng):
 # model ops
 
 
-def model_args(call, rid, env=None, req=None):
+def model_args(call, rid, env=None, req=None, file_taken=None):
     head = call.get("head")
     extra = {}
     if env is not None and req is not None:
         # what the template is handed: message, id, resolved down revisions, labels, written dependencies
         msg = call.get("message") if call.get("message") is not None else "empty message"
         extra["encodable"] = env.encodable([msg, rid] + list(req["down"]) + list(req["labels"]) + list(req["deps"]))
+    if file_taken:
+        extra["fileTaken"] = True
     if env is not None:
         vp, locs = env.model_paths(call.get("version_path"))
         extra.update({"locations": locs, "tzOk": env.tz_ok(),
@@ -373,6 +386,25 @@ def path_op(env, rid, message, dt):
         "extraWord": extra, "lower": lower, "epoch": int(dt.timestamp()), "year": dt.year, "month": dt.month,
         "day": dt.day, "hour": dt.hour, "minute": dt.minute, "second": dt.second,
     }
+
+
+def expected_dir(env, fresh_before, call, req):
+    """the version location generate_revision writes into, from the configuration and the request: the given
+    --version-path when it is a location; else the only location; else the directory of the first resolved head"""
+    spec = call.get("version_path")
+    if spec is not None:
+        if isinstance(spec, dict) and spec.get("kind") != "location":
+            return None
+        return os.path.normpath(os.path.abspath(env.version_path(spec)))
+    if len(env.locations) == 1:
+        return os.path.normpath(env.locations[0])
+    if req is None:
+        return None
+    for d in req["down"]:
+        sc = fresh_before.revision_map._revision_map.get(d)
+        if sc is not None and getattr(sc, "path", None):
+            return os.path.normpath(os.path.dirname(sc.path))
+    return None
 
 
 def in_f12_class(*texts):
@@ -438,13 +470,38 @@ def check_call(ctx, env, sd, model_m_hist, seg_calls, call, rid, dt, fresh_befor
         unordered = False
         inp["request_error"] = rev_impl.err_name(e)
     before_view = G.view(fresh_before.revision_map)   # taken now: the call may mutate this very map
+    # the files each version location holds before the call, and - decided here, from the configuration, the model's
+    # file name and the request, not from what the implementation does - whether the name this call maps to is taken
+    pre_files = {}
+    for loc in env.locations:
+        try:
+            pre_files[os.path.normpath(loc)] = set(os.listdir(loc))
+        except OSError:
+            pre_files[os.path.normpath(loc)] = set()
+    file_taken = None
+    if not getattr(env, "real_date", False) or not any(t in env.file_template for t in ("epoch", "year", "month", "day", "hour", "minute", "second")):
+        want_dir = expected_dir(env, fresh_before, call, req)
+        if want_dir is not None:
+            a_ = ctx.drv.ask1(path_op(env, rid, call.get("message"), dt))
+            if "name" in a_:
+                file_taken = from_cps(a_["name"]) in pre_files.get(want_dir, set())
     if getattr(env, "real_date", False):
         res = G.run_call(env, sd, call, rid)
     else:
         with fixed_date(dt):
             res = G.run_call(env, sd, call, rid)
     ctx.evaluation()
-    out = {"res": res, "req": req, "inp": inp}
+    out = {"res": res, "req": req, "inp": inp, "file_taken": file_taken}
+    if file_taken is not None:
+        ctx.hist("file_name_taken", file_taken)
+    if "err" not in res and res.get("script") is not None:
+        p_ = res["script"].path
+        if os.path.basename(p_) in pre_files.get(os.path.normpath(os.path.dirname(p_)), set()):
+            # an accepted call wrote over a file that was there before: the earlier revision is gone from the disk
+            ctx.fail(inp, "overwrote: the accepted call wrote its revision into %s, which already held another revision; "
+                          "that revision no longer loads back" % os.path.relpath(p_, env.dir),
+                     impl={"file": os.path.basename(p_), "files_before": sorted(pre_files.get(os.path.normpath(os.path.dirname(p_)), set()))[:12]},
+                     tags=["overwrote"])
     if "err" in res:
         ctx.hist("impl_error", res["err"])
         # an accepted request whose file then does not load: the property fails on the real code
@@ -556,7 +613,8 @@ def run_one_sequence(ctx, rng, env, n_calls, f12, scripted=None):
             call = dict({"kind": "generate", "message": "m", "mclass": "battery", "splice": False, "hk": "battery", "lk": "battery",
                          "dk": "battery", "ik": "battery"}, **scripted[ci])
         else:
-            call = gen_call(rng, st, all_taken)
+            # (with the real clock the date tokens of the name are not known before the call: no deliberate collisions there)
+            call = gen_call(rng, st, all_taken, () if getattr(env, "real_date", False) else getattr(env, "recent", ()))
         if f12:
             if rng.random() < 0.75:
                 call["message"] = rng.choice(F12_MESSAGES)
@@ -603,20 +661,29 @@ def run_one_sequence(ctx, rng, env, n_calls, f12, scripted=None):
             seg_hist0, seg_calls, seg_records = G.hist_of_map(fresh.revision_map), [], []
         out, fresh_after = check_call(ctx, env, sd, None, seg_calls, call, rid, dt, fresh, "f12" if f12 else "main")
         out["dt"] = out.get("real_dt") or dt
-        seg_calls.append(model_args(call, rid, env, out.get("req")))
+        seg_calls.append(model_args(call, rid, env, out.get("req"), out.get("file_taken")))
         seg_records.append(out)
         accepted = fresh_after is not None
         if accepted:
             fresh = fresh_after
             ctx.hist("history_size", len(out["fresh_view"]["revs"]))
+            if not hasattr(env, "recent"):
+                env.recent = []
+            env.recent.append((rid, call.get("message")))
         if call["kind"] != "generate" or not accepted:
             # the persistent directory is stale (command.*) or possibly half-updated (exception): restart it
             pending.append((seg_hist0, seg_calls, seg_records))
-            with warnings.catch_warnings():
-                warnings.simplefilter("ignore")
-                sd = env.fresh()
-                fresh = sd
-            seg_hist0, seg_calls, seg_records = G.hist_of_map(sd.revision_map), [], []
+            try:
+                with warnings.catch_warnings():
+                    warnings.simplefilter("ignore")
+                    sd = env.fresh()
+                    fresh = sd
+                seg_hist0, seg_calls, seg_records = G.hist_of_map(sd.revision_map), [], []
+            except Exception as e:  # noqa
+                # the directory no longer loads (already reported by the call that broke it): this sequence ends here
+                ctx.hist("sequence_cut_short", type(e).__name__)
+                seg_calls = []
+                break
     if seg_calls:
         pending.append((seg_hist0, seg_calls, seg_records))
     flush_segments(ctx, env, pending)
@@ -1063,6 +1130,20 @@ BATTERY = [
         {"kind": "merge", "rev_id": "d2d2", "head": ["b2b2", "c2c2"]},
     ]),
     ({"timezone": "Mars/Phobos"}, [{"rev_id": "a3a3"}]),
+    # two different revisions whose id + "_" + slug coincide (a_b + c / a + b_c): the second is refused, nothing is replaced
+    ({}, [
+        {"rev_id": "a_b", "head": "base", "message": "c"},
+        {"rev_id": "a", "head": "a_b", "message": "b c"},
+        {"rev_id": "a1", "head": "a_b", "message": "b c"},
+        {"kind": "revision", "rev_id": "a_b_c", "head": "a1"},
+    ]),
+    # a template without the id, one location: the same message twice
+    ({"file_template": "%(slug)s"}, [
+        {"rev_id": "a7a7", "head": "base", "message": "initial"},
+        {"rev_id": "b7b7", "head": "a7a7", "message": "Initial!"},
+        {"kind": "merge", "rev_id": "c7c7", "head": ["a7a7", "base"], "message": "initial"},
+        {"rev_id": "d7d7", "head": "a7a7", "message": "second"},
+    ]),
     # different ids that differ only in punctuation, same message (and none): each keeps its own file
     ({}, [
         {"rev_id": "rel.2024.1", "head": "base", "message": "release"},
